@@ -42,7 +42,9 @@ impl Method for FixedMethod {
         }
 
         if config.get_fixed_suggestion() {
-            self.typed.push(keycode_to_char(key));
+            if let Some(character) = keycode_to_char(key) {
+                self.typed.push(character);
+            }
         }
 
         self.create_suggestion(data, config)
